@@ -26,10 +26,10 @@ COMPONENTS = {"real": ["Hedger.compute_hedge / compute_portfolio / compute_loss 
                        "bisection-based quadratic CVaR and OCE, torch autograd"],
               "stub": ["central finite differences along seeded unit directions (reference)", "RecModel with live tensors (graph monitor)"]}
 ASSUMPTIONS = ["float64 only; central differences along random unit directions with h = 1e-6*(1+|theta|), threshold 1e-4 relative + 1e-9 "
-               "absolute; a mismatch must persist for h/10 and 10h (a kink of a piecewise-linear criterion inside the stencil does not)",
+               "absolute (3e-3 relative for quadratic CVaR, whose value comes from a bisection of precision 1e-6); a mismatch must persist for h/10 and 10h (a kink of a piecewise-linear criterion inside the stencil does not)",
                "smooth activations only (a ReLU kink is not a generic parameter point)"]
 PROBES = ["fd_frozen", "fd_replay", "prev_hedge_in_loss", "cost_positive", "H2", "criterion_parameter", "after_fit", "no_graph_price",
-          "no_graph_loss", "ambient_enable_grad", "ambient_no_grad", "graph_monitor", "fd_retry_other_h", "listed_hedge", "n_times_ge2", "eval_mode"]
+          "no_graph_loss", "ambient_enable_grad", "ambient_no_grad", "graph_monitor", "fd_retry_other_h", "listed_hedge", "n_times_ge2", "eval_mode", "fd_truncation_dominated"]
 CRITS = ["EntropicRiskMeasure", "ExpectedShortfall", "QuadraticCVaR", "EntropicLoss", "IsoelasticLoss", "OCE", "MSELoss", "L1Loss"]
 
 
@@ -101,7 +101,7 @@ def _get_flat(ps):
     return torch.cat([p.detach().reshape(-1) for p in ps]).clone()
 
 
-def _fd_check(h, loss_fn, seed, site, cfg, stats, seq):
+def _fd_check(h, loss_fn, seed, site, cfg, stats, seq, rtol=1e-4):
     """autograd gradient of loss_fn() vs central differences along seeded unit directions"""
     ps = _flat_params(h)
     if not ps:
@@ -135,16 +135,38 @@ def _fd_check(h, loss_fn, seed, site, cfg, stats, seq):
                 lm = float(loss_fn())
             fd = (lp - lm) / (2 * hstep)
             stats.checks += 1
-            if abs(fd - ana) <= 1e-4 * max(abs(fd), abs(ana)) + 1e-9:
+            if abs(fd - ana) <= rtol * max(abs(fd), abs(ana)) + 1e-9:
                 bad = None
                 if mult != 1.0:
                     stats.probe("fd_retry_other_h")
                 break
             bad.append({"h": hstep, "finite_difference": fd, "autograd": ana})
+            if mult == 0.1 and abs(bad[0]["finite_difference"] - ana) >= 30 * abs(fd - ana):
+                # the disagreement shrinks like h^2 when h shrinks tenfold: truncation error of the difference quotient on a
+                # strongly curved loss, not a wrong gradient (a wrong gradient leaves a disagreement that does not depend on h)
+                bad = None
+                stats.probe("fd_truncation_dominated")
+                break
         _set_flat(ps, theta0)
         if bad is not None:
             raise Violation(ID, "gradient_mismatch", site, dict(cfg, direction=di, attempts=bad, loss=float(L)), seq)
     _set_flat(ps, theta0)
+    return True
+
+
+def _pl_admissible(h, d, hedge, cspec):
+    """is the P&L on the current buffers finite (and positive for the isoelastic utility)?"""
+    try:
+        with torch.no_grad():
+            pl = h.compute_portfolio(d, hedge=hedge) - d.payoff()
+    except Exception:
+        return True
+    finally:
+        torch.set_grad_enabled(True)
+    if not bool(torch.isfinite(pl).all()):
+        return False
+    if cspec["kind"] == "IsoelasticLoss" and float(pl.min()) <= 0:
+        return False
     return True
 
 
@@ -231,10 +253,15 @@ def _execute(program, stats, hist):
             else:
                 h.train()
             try:
-                did = _fd_check(h, loss_fn, op["seed"], site, cfg, stats, seq)
+                # quadratic CVaR solves its inner minimisation by bisection to precision ~1e-6: the autograd gradient carries
+                # an error of order 2*lam*precision*|d omega/d theta| (envelope term not exactly zero), i.e. up to ~1e-3 relative
+                rtol = 3e-3 if cspec["kind"] == "QuadraticCVaR" else 1e-4
+                did = _fd_check(h, loss_fn, op["seed"], site, cfg, stats, seq, rtol=rtol)
             except (Violation, Inconclusive):
                 raise
             except Exception as e:
+                if not _pl_admissible(h, d, hedge, cspec):
+                    raise Inconclusive("criterion raised on a non-finite / inadmissible P&L sample (a C18 matter)")
                 raise Violation(ID, "op_raised", "%s:%s" % (site, type(e).__name__), dict(cfg, error=repr(e)[:300]), seq)
             finally:
                 torch.set_grad_enabled(True)
@@ -274,6 +301,8 @@ def _execute(program, stats, hist):
             except Exception as e:
                 if op["which"] == "price" and cspec["kind"] in ("MSELoss", "L1Loss"):
                     continue  # torch losses have no cash(): price is not defined for them
+                if not _pl_admissible(h, d, hedge, cspec):
+                    continue
                 raise Violation(ID, "op_raised", "%s:%s" % (op["which"], type(e).__name__), dict(cfg, error=repr(e)[:300]), seq)
             finally:
                 torch.set_grad_enabled(True)
